@@ -19,8 +19,8 @@ import (
 // exact rational reference.
 
 type c07Unit struct {
-	Rate  string `json:"rate"`  // "1", "1+1e-6", "1.5", "7/3", "10"
-	Size  int64  `json:"size"`  // shares outstanding at the root
+	Rate  string `json:"rate"` // "1", "1+1e-6", "1.5", "7/3", "10"
+	Size  int64  `json:"size"` // shares outstanding at the root
 	First int    `json:"first"`
 	Depth int    `json:"depth"`
 }
